@@ -57,6 +57,11 @@ def signature(tree, v):
     if (len(pv) == 4 and pv[0] in ("OK", "SKIP") and "List" in kinds_in(tree)
             and all(x != "OK" for x in pv[1:])):
         return {"clause": "cached-evaluators-reject", "contains": "List"}
+    # a common subexpression over a list: the wrapper (hashed through its child) cannot be a
+    # key of the per-instance CSE cache either, so even the plain evaluator raises TypeError
+    ks = kinds_in(tree)
+    if v["v"] == "error-instead-of-value" and "List" in ks and "CSE" in ks:
+        return {"clause": "evaluators-reject", "contains": "CSE-over-List"}
     return {"clause": v["v"], "root": tree["t"]}
 
 
@@ -107,3 +112,23 @@ def run(tier, seed, out):
     out.exhaustive = True
     out.assumptions += ["CPython semantics as transcribed in PyNum.tla (sanity laws checked by TLC)",
                         "values beyond |n|,d <= 30000 and inexact floats are out of model (skipped)"]
+
+
+def replay(path, out):
+    wd = kit.fresh_workdir("C02")
+    d = json.loads(open(path).read())
+    gen = kit.run_tlc("C02_Gen", "C02_Gen_quick")
+    envs = [p["envs"] for p in gen.printed() if "envs" in p]
+    case = {"id": 0, "e": d["detail"]["case"]}
+    recs = kit.drive("harness.c02", "drive_case", [case], {"envs": envs[0]})
+    shards = kit.write_shards(recs, wd / "trace", "c02", 12000)
+    verdicts, st, tr = kit.judge_shards("C02_Judge", "C02_Judge", shards)
+    out.states += st
+    out.transitions += tr
+    out.traces += len(recs)
+    for v in verdicts:
+        if v.get("v") == "SKIP":
+            out.skipped += 1
+            continue
+        out.fail(signature(recs[0]["e"], v), {"case": recs[0]["e"], "env_index": v["env"],
+                                              "recorded": recs[0]["r"][v["env"] - 1]})
